@@ -79,7 +79,8 @@ VAROPS = {
     'sE': 'B$="he"+"ap":L$=LEFT$(B$,0)',
     'aC': 'DIM C%(3):C%(1)=11:C%(3)=33',
     # D$(3) is a run-time empty string: it shares its address with the string stored just before it
-    'aD': 'DIM D$(3):D$(1)="p":D$(2)="q"+"r":D$(3)=LEFT$(D$(2),0)',
+    # ... and D$(4) is long, stored below the short ones (it is the one that does not fit when memory is short)
+    'aD': 'DIM D$(4):D$(1)="p":D$(2)="q"+"r":D$(3)=LEFT$(D$(2),0):D$(4)=STRING$(200,"w")',
     'aE': 'DIM A!(1,2):A!(1,2)=2.5:A!(1,1)=7',
     # a string that lives in the record buffer of an open random file (chain leg only)
     'sF': 'OPEN "R.DAT" AS 1 LEN=8:FIELD 1,8 AS B$:LSET B$="HELLO"',
@@ -114,7 +115,7 @@ def _apply_varop(m, op, base):
         v = [0, 11, 0, 33]
         ar['C%'] = v[base:]
     elif op == 'aD':
-        v = [b'', b'p', b'qr', b'']
+        v = [b'', b'p', b'qr', b'', b'w' * 200]
         ar['D$'] = v[base:]
     elif op == 'aE':
         v = [[0.0, 0.0, 0.0], [0.0, 7.0, 2.5]]
@@ -528,7 +529,24 @@ def run_chain_case(part, order, ci, chi, base, tight, extras):
             return 'exc'
         if r.err is not None:
             if r.err in (7, 14) and tight:
-                return 'oom%d-%s' % (r.err, 'in-chain' if r.erl == 620 else 'while-building')
+                if r.erl != 620:
+                    return 'oom%d-while-building' % r.err
+                # CHAIN itself was refused for lack of memory: the variables are either all as they were (refused before
+                # anything was cleared) or all gone (refused after the old program's variables were dropped)
+                model = _new_model()
+                for op in order:
+                    _apply_varop(model, op, base)
+                first = []
+                for label2, expect in (('kept', model), ('cleared', _new_model())):
+                    found = []
+                    c.run('ON ERROR GOTO 0')
+                    ok = _observe_vars(c, expect, ccls + '-refused', lambda k, w: found.append((k, w)))
+                    if ok and not found:
+                        return 'oom%d-in-chain-variables-%s' % (r.err, label2)
+                    first = first or found
+                for k, w in first[:1]:
+                    viol(k, 'CHAIN refused with error %d, then (variables expected untouched): %s' % (r.err, w))
+                return 'viol'
             viol('%s/error-%s-in-line-%s' % (ccls, r.err, r.erl), 'program failed: %r' % (r.out[:80],))
             return 'err'
         model = _new_model()
@@ -598,13 +616,14 @@ def legs(ctx):
     for order in orders:
         for ci in range(len(COMMONS)):
             if ctx.quick:
-                combos = [(0, 0, 0, 0), (2, 0, 0, 0), (3, 1, 0, 0), (4, 0, 600, 0), (0, 1, 330, 0)]
+                combos = [(0, 0, 0, 0), (2, 0, 0, 0), (3, 1, 0, 0), (4, 0, 600, 0), (0, 1, 330, 0), (0, 0, 150, 0), (2, 0, 150, 0)]
                 if len(order) <= 1:
                     combos += [(1, 0, 0, 1), (5, 0, 600, 0), (0, 0, 0, 1), (2, 0, 0, 1), (5, 0, 0, 1)]
             else:
                 combos = [(chi, base, 0, 0) for chi in range(len(CHAINS)) for base in (0, 1)]
                 combos += [(chi, 0, 600, 0) for chi in range(len(CHAINS))]
                 combos += [(0, 0, 330, 0), (3, 0, 330, 0), (4, 1, 600, 0)]
+                combos += [(chi, 0, 150, 0) for chi in range(len(CHAINS))] + [(0, 1, 150, 0), (2, 0, 60, 0), (0, 0, 60, 0)]
                 if len(order) <= 1:
                     combos += [(chi, 0, 0, 1) for chi in range(len(CHAINS))]
             for chi, base, tight, extras in combos:
@@ -612,8 +631,8 @@ def legs(ctx):
     out.append(Leg('chain', list(chunked(ccases, 60 if ctx.quick else 200)), work_chain, exhaustive=True,
                    bound='all %d ordered histories of <=%d of %d variable operations x %d COMMON lists x %s' % (
                        len(orders), d, len(CHAIN_VARORDER), len(COMMONS),
-                       '5-8 (CHAIN form, OPTION BASE, memory) combinations' if ctx.quick else
-                       '21 (CHAIN form, OPTION BASE, memory normal/600/330 bytes free) combinations (+ DEF FN/'
+                       '7-10 (CHAIN form, OPTION BASE, memory normal/600/330/150 bytes free) combinations' if ctx.quick else
+                       '30 (CHAIN form, OPTION BASE, memory normal/600/330/150/60 bytes free) combinations (+ DEF FN/'
                        'DEFtype extras for histories <=1') + '; %d cases' % len(ccases)))
     return out
 
